@@ -1,6 +1,7 @@
 package chain
 
 import (
+	"github.com/MinterTeam/minter-go-node/coreV2/state/swap"
 	"bytes"
 	"encoding/hex"
 	"encoding/json"
@@ -678,6 +679,39 @@ func (MonHotCold) AfterBlock(w *World, b *BlockCtx) {
 	if cls, d := HotColdDiff(w.Node, b.Cur); cls != "" {
 		w.Report("C09", "restart-equivalence", c09class(w, cls), fmt.Sprintf("height %d, no restart at all: the running node's live state differs from what it committed: %s", b.Height, d), b.Height)
 		return
+	}
+	// the live order books list exactly the committed orders
+	if cs := w.Node.App.CurrentState(); cs != nil {
+		for _, p := range b.Cur.Pools {
+			if len(p.Orders) == 0 {
+				continue
+			}
+			want := map[uint64]bool{}
+			for _, o := range p.Orders {
+				want[o.ID] = true
+			}
+			sw := cs.Swap().GetSwapper(coinID(p.Coin0), coinID(p.Coin1))
+			seen := map[uint64]bool{}
+			for _, side := range []swap.EditableChecker{sw, sw.Reverse()} {
+				for _, l := range side.OrdersSell(10000) {
+					if l != nil {
+						seen[uint64(l.ID())] = true
+					}
+				}
+			}
+			for id := range want {
+				if !seen[id] {
+					w.Report("C09", "restart-equivalence", c09class(w, "hot-orders"), fmt.Sprintf("height %d, no restart at all: order %d of pool %d is committed but the running node's live order book does not list it", b.Height, id, p.ID), b.Height)
+					return
+				}
+			}
+			for id := range seen {
+				if !want[id] {
+					w.Report("C09", "restart-equivalence", c09class(w, "hot-orders"), fmt.Sprintf("height %d, no restart at all: the running node's live order book of pool %d lists order %d, which the committed state does not have", b.Height, p.ID, id), b.Height)
+					return
+				}
+			}
+		}
 	}
 	w.Probe("hot_cold_compared")
 }
